@@ -177,7 +177,7 @@ where
     let mon: Shared = Rc::new(RefCell::new(MonState::new(policy, fail, seed)));
     set_current(Some(mon.clone()));
     rep.histories += 1;
-    let empty = Snap { typed: Default::default(), any: Default::default(), content_ptrs: Vec::new() };
+    let empty = Snap::empty();
     let mut ctx = Ctx {
         rng,
         mon: mon.clone(),
@@ -347,7 +347,7 @@ where
                         ctx.viol("C05", sig, d);
                     }
                 }
-                ctx.view = Snap { typed: Default::default(), any: Default::default(), content_ptrs: Vec::new() };
+                ctx.view = Snap::empty();
                 let Some(b) = initial::<A, S>(ctx) else { return };
                 bump = b;
                 bump_after(ctx, &bump, Expect { may_decrease: true, ..Default::default() });
@@ -455,7 +455,7 @@ where
                         PanicKind::Msg(m) if m.contains("unallocated") && unallocated => {}
                         k => ctx.viol("C18", "conversion_to_guaranteed_allocated_panicked_wrongly".into(), format!("unallocated={unallocated} panic={k:?}")),
                     }
-                    ctx.view = Snap { typed: Default::default(), any: Default::default(), content_ptrs: Vec::new() };
+                    ctx.view = Snap::empty();
                     let b = initial::<A, S>(ctx)?;
                     bump_after(ctx, &b, Expect { may_decrease: true, ..Default::default() });
                     Some(b)
@@ -499,7 +499,7 @@ where
                         m.log.clear();
                         m.grants.clear();
                     }
-                    ctx.view = Snap { typed: Default::default(), any: Default::default(), content_ptrs: Vec::new() };
+                    ctx.view = Snap::empty();
                     let b = initial::<A, S>(ctx)?;
                     bump_after(ctx, &b, Expect { may_decrease: true, ..Default::default() });
                     Some(b)
